@@ -110,45 +110,60 @@ def rule_flow(ctx: Ctx):
 
 
 def rule_collect(ctx: Ctx, rule: str = "C14.collect"):
+    from ..shapes import canon_lookup, collect_from_comp, collect_from_loop, missing_fact
+
     rep = ctx.rep
-    # sync: list of every selected callback's value
+    # sync: every selected callback's value, in order, unfiltered (comprehension or explicit append loop)
     fn = ctx.fn("CallbacksExecutor.call")
-    for p in ctx.paths(fn, exc_edges="none"):
-        v = expand(p.value, p.events) if p.kind == "return" else None
-        ok = isinstance(v, ast.ListComp) and len(v.generators) == 1 and show(v.generators[0].iter) == "self"
-        if ok:
-            g = v.generators[0]
-            t = g.target.id if isinstance(g.target, ast.Name) else "?"
-            ok = show(v.elt) == f"{t}.call(*args, **kwargs)" and all(
-                isinstance(c, ast.Call) and show(c.func) == f"{t}.condition" for c in g.ifs)
-        rep.check(bool(ok), rule, fn.loc(), "executor.call returns the value of every selected callback, in order, unfiltered "
-                  "(an explicit None stays in the list)", fn.key, f"return {show(v)}")
+    shapes = []
+    for p in ctx.paths(fn, exc_edges="none", unroll=1):
+        if p.kind != "return":
+            continue
+        v = expand(p.value, p.events)
+        c = collect_from_comp(v) if isinstance(v, (ast.ListComp, ast.GeneratorExp)) else collect_from_loop(p)
+        if c is not None:
+            shapes.append(c)
+    if not shapes:
+        rep.unrecognised(rule, fn.loc(), "executor.call is neither a list comprehension nor an append loop over the executor")
+    for c in shapes:
+        ok = c.source in ("self", "self.items", "iter(self.items)") and c.value == "ELEM.call(*args, **kwargs)" and \
+            [f for f in c.filters] == [("ELEM.condition(*args, **kwargs)", True)]
+        rep.check(ok, rule, fn.loc(), "executor.call returns the value of every selected callback, in order, unfiltered "
+                  "(an explicit None stays in the list)", fn.key, f"{c.form}: value={c.value} filters={c.filters} over {c.source}")
     fn = ctx.fn("CallbacksExecutor.async_call")
     for p in ctx.paths(fn, exc_edges="none"):
         v = expand(p.value, p.events) if p.kind == "return" else None
         ok = isinstance(v, ast.Call) and show(v.func) == "asyncio.gather" and len(v.args) == 1 and isinstance(v.args[0], ast.Starred) \
-            and isinstance(v.args[0].value, (ast.GeneratorExp, ast.ListComp)) and not v.keywords
-        if ok:
-            c = v.args[0].value
-            g = c.generators[0]
-            t = g.target.id if isinstance(g.target, ast.Name) else "?"
-            ok = len(c.generators) == 1 and show(g.iter) == "self" and show(c.elt) == f"{t}(*args, **kwargs)" and all(
-                isinstance(x, ast.Call) and show(x.func) == f"{t}.condition" for x in g.ifs)
-            calls = [e for e in p.calls() if show(e.term.func) == "asyncio.gather"]
-            ok = ok and calls and calls[0].x.get("awaited")
+            and not v.keywords
+        c = collect_from_comp(v.args[0].value) if ok else None
+        ok = ok and c is not None and c.source == "self" and c.value == "ELEM(*args, **kwargs)" and c.filters == [("ELEM.condition(*args, **kwargs)", True)]
+        calls = [e for e in p.calls() if show(e.term.func) == "asyncio.gather"]
+        ok = ok and bool(calls) and bool(calls[0].x.get("awaited"))
         rep.check(bool(ok), rule, fn.loc(), "executor.async_call awaits gather() over every selected callback (order-preserving)",
                   fn.key, f"return {show(v)}")
-    reg = ctx.fn("CallbacksRegistry.call")
-    for p in ctx.paths(reg, exc_edges="none"):
-        v = expand(p.value, p.events) if p.kind == "return" else None
-        ok = (isinstance(v, ast.List) and not v.elts) or (isinstance(v, ast.Call) and show(v.func) == "self._registry[key].call"
-                                                          and [show(a) for a in v.args] == ["*args"])
-        rep.check(ok, rule, reg.loc(), "registry.call yields [] for an empty group, else the executor's list", reg.key, f"return {show(v)}")
+    for meth, empty in (("call", "[]"),):
+        reg = ctx.fn(f"CallbacksRegistry.{meth}")
+        key = reg.params[1]
+        for p in ctx.paths(reg, exc_edges="none"):
+            if p.kind != "return":
+                continue
+            v = expand1(p.value, p.events)
+            if isinstance(v, ast.List) and not v.elts:
+                miss = missing_fact(p, "self._registry", key)
+                rep.check(miss is True, rule, reg.loc(), "registry.call yields [] only for a group nobody registered", reg.key,
+                          f"return [] with missing={miss}")
+            else:
+                lk = canon_lookup(v.func.value, p.events) if isinstance(v, ast.Call) and isinstance(v.func, ast.Attribute) else None
+                ok = lk == ("self._registry", key) and v.func.attr == meth and [show(a) for a in v.args] == ["*args"] and \
+                    [show(k_.value) for k_ in v.keywords if k_.arg is None] == ["kwargs"]
+                rep.check(bool(ok), rule, reg.loc(), "registry.call hands the event's arguments to the executor of that key and returns its list", reg.key,
+                          f"return {show(v)}")
     rega = ctx.fn("CallbacksRegistry.async_call")
     for p in ctx.paths(rega, exc_edges="none"):
-        v = expand(p.value, p.events) if p.kind == "return" else None
-        ok = isinstance(v, ast.Call) and show(v.func) == "self._registry[key].async_call" and [show(a) for a in v.args] == ["*args"]
-        rep.check(ok, rule, rega.loc(), "registry.async_call delegates to the executor of that key", rega.key, f"return {show(v)}")
+        v = expand1(p.value, p.events) if p.kind == "return" else None
+        lk = canon_lookup(v.func.value, p.events) if isinstance(v, ast.Call) and isinstance(v.func, ast.Attribute) else None
+        ok = lk == ("self._registry", rega.params[1]) and v.func.attr == "async_call" and [show(a) for a in v.args] == ["*args"]
+        rep.check(bool(ok), rule, rega.loc(), "registry.async_call delegates to the executor of that key", rega.key, f"return {show(v)}")
 
 
 def rule_none(ctx: Ctx):
